@@ -86,7 +86,14 @@ func (s *Sim) OfferRaw(b *refchain.Block, raw []byte, family string) (refchain.R
 		if why == "" {
 			why = "tip"
 		}
-		s.Run.Violation("tip-mismatch/"+why+"/"+family, fmt.Sprintf("tip differs after delivery: node %s reference %s (height %d)", th, s.Ref.Tip.Hash, s.Ref.Tip.Height), wit())
+		w := wit()
+		w["reference_blocks_found_invalid"] = s.Ref.InvalidBlocks()
+		var anc []string
+		for x, k := s.N.Ch.LastBlock(), 0; x != nil && k < 8; x, k = x.Parent, k+1 {
+			anc = append(anc, fmt.Sprintf("%s h=%d", x.BlockHash.String(), x.Height))
+		}
+		w["node_tip_and_its_ancestors"] = anc
+		s.Run.Violation("tip-mismatch/"+why+"/"+family, fmt.Sprintf("tip differs after delivery: node %s reference %s (height %d)", th, s.Ref.Tip.Hash, s.Ref.Tip.Height), w)
 		return rr, gr, false
 	}
 	if s.CompareUTXOEvery > 0 && s.deliveries%s.CompareUTXOEvery == 0 {
